@@ -148,6 +148,7 @@ EXC_PARENTS = {
     'BaseException': None,
     'Exception': 'BaseException',
     'KeyboardInterrupt': 'BaseException',
+    'SystemExit': 'BaseException',
     'GeneratorExit': 'BaseException',
     'ArithmeticError': 'Exception',
     'OverflowError': 'ArithmeticError',
